@@ -9,6 +9,7 @@ import verde as vd
 from verde.base import least_squares
 
 ID = "C02"
+TRANSLATED = "ls"          # Gen/LeastSquares.lean (least_squares as a specification over scikit-learn contracts) is regenerated from /repo and bridged in Props/C02.lean
 FILES = ["verde/base/least_squares.py", "verde/trend.py", "verde/spline.py", "verde/vector.py", "verde/base/utils.py"]
 RULE = ("corpus + seeded well-conditioned systems: verde.base.least_squares on random integer Jacobians (m x n, n <= 8 quick / 14 thorough), Trend.fit "
         "(degrees 0..4), Spline.fit and VectorSpline2D.fit (forces at the data or at a separate smaller set, Poisson in [-1, 1]) with weights none/positive and "
